@@ -77,6 +77,10 @@ def random_scenario(rng, kind, policy=None, bind="", mapping_p=0.25, mon_p=0.4, 
         if not (burst and len(arr) < n - 2):
             t += step * K * rng.choice([0, 0, 0, 1, 1, 2, 3, 4, 9])
         arr.append({"t": t, "f": rng.randint(1, nf), "sz": rng.choice(sizes), "src": rng.choice([0, 1, 1, 2])})
+    # closed-loop arrivals: handed in a few zero-delay steps after the k-th departure, i.e. inside the instant of a
+    # transmission end, between the scheduler's internal steps
+    for _ in range(rng.choice([0, 0, 1, 2, 3])):
+        arr.append({"t": -1, "after": [rng.randint(1, n), rng.choice([1, 1, 2, 3])], "f": rng.randint(1, nf), "sz": rng.choice(sizes)})
     sc = {"sched": kind, "bind": bind,
           "cfg": {"policy": policy or kind, "K": K, "nf": nf, "nc": nc, "f2c": f2c, "w": w, "order": order, "unit": unit},
           "arr": arr}
